@@ -36,6 +36,12 @@ package invoices
 //@ func updateLegacy
 //@   props C15
 //@   bounds-safe
+//@   // an HTLC without an MPP record is neither accepted nor settled while an MPP set is being gathered on the invoice: the scan of the
+//@   // accepted HTLCs for a declared MPP total comes before every accept and settle verdict (also the early accept of a hold invoice)
+//@   site call acceptRes as after-mpp-in-progress-scan: assert called(HTLCSet, 0)
+//@   site call settleRes as after-mpp-in-progress-scan: assert called(HTLCSet, 0)
+//@   site call HTLCSet nth 0: assert arg(0) == inv && arg(state) == HtlcStateAccepted
+//@   loop 0 step htlc.MppTotalAmt == 0
 //@   requires 0 <= ctx.currentHeight && ctx.currentHeight <= 1<<30
 //@   requires 0 <= ctx.finalCltvRejectDelta && ctx.finalCltvRejectDelta <= 1<<20
 //@   requires 0 <= inv.Terms.FinalCltvDelta && inv.Terms.FinalCltvDelta <= 1<<20
@@ -301,6 +307,9 @@ package invoices
 //@   site call hodlSubscribe: assert arg(subscriber) == hodlChan && arg(circuitKey) == ctx.circuitKey && retn(UpdateInvoice, 1) == nil
 //@   site call notifyClients: assert arg(hash) == ctx.hash && arg(invoice) == retn(UpdateInvoice, 0) && retn(UpdateInvoice, 1) == nil
 //@   site call makeInvoiceExpiry: assert arg(0) == ctx.hash && arg(1) == retn(UpdateInvoice, 0)
+//@   // once the invoice is found, the verdict comes out of the update transaction - the only place that knows whether this HTLC is a replay;
+//@   // no shortcut answers before it
+//@   site return * nth 2 as no-verdict-between-lookup-and-update: assert called(Intercept) && result2 != nil
 //@
 //@ // ---- SQL updater: an HTLC row is written and later addressed under the same key (unsigned decimal of the
 //@ // ---- full 64-bit channel id, htlc id, invoice id) and with the state it is told
